@@ -268,7 +268,7 @@ func prefixEach(xs []string, sep string) string {
 func (f *g2lFn) varsNT(vs []*types.Var, at ast.Node) []nameType {
 	out := []nameType{}
 	for _, v := range vs {
-		out = append(out, nameType{f.varName(v), f.leanType(v.Type(), at)})
+		out = append(out, nameType{f.varName(v), f.varType(v, at)})
 	}
 	return out
 }
@@ -428,4 +428,12 @@ func (f *g2lFn) gotoTargets(n ast.Node) []ast.Node {
 		return true
 	})
 	return out
+}
+
+// varType: the Lean type of a variable (the synthetic world variable has the configured world type)
+func (f *g2lFn) varType(v *types.Var, at ast.Node) string {
+	if v == f.worldVar && v != nil {
+		return f.worldType
+	}
+	return f.leanType(v.Type(), at)
 }
